@@ -64,6 +64,64 @@ def run_input(args):
     return out
 
 
+def fuzz_stage(chk, seeds):
+    """thorough tier: coverage-guided fuzzing of the front end (libFuzzer + ASan, debug assertions on) through
+    the compile-only hook, 16 forks; every artifact is re-run through lyrun for classification."""
+    import re
+    import shutil
+    import subprocess
+    fuzzdir = os.path.join(vlib.VERIF, 'fuzz')
+    lock = os.path.join(fuzzdir, 'Cargo.lock')
+    if not os.path.exists(lock):
+        shutil.copy(os.path.join(vlib.REPO, 'Cargo.lock'), lock)
+    corp = os.path.join(WORK[0], 'fuzz_corpus')
+    art = os.path.join(WORK[0], 'fuzz_artifacts')
+    os.makedirs(corp, exist_ok=True)
+    os.makedirs(art, exist_ok=True)
+    for i, t in enumerate(seeds):
+        if len(t) < 4096:
+            open(os.path.join(corp, 'seed%04d' % i), 'w', encoding='utf-8').write(t)
+    env = dict(os.environ)
+    env['CARGO_NET_OFFLINE'] = 'true'
+    env['CARGO_TARGET_DIR'] = os.path.join(vlib.TARGET, 'fuzz')
+    env.pop('RUSTFLAGS', None)
+    secs = int(os.environ.get('VERIF_FUZZ_SECONDS', '900'))
+    cmd = ['cargo', '+nightly', 'fuzz', 'run', '--fuzz-dir', fuzzdir, 'frontend', corp, '--',
+           '-max_total_time=%d' % secs, '-fork=16', '-timeout=10', '-max_len=4096', '-ignore_crashes=1',
+           '-ignore_timeouts=1', '-ignore_ooms=1', '-artifact_prefix=' + art + '/', '-seed=%d' % (chk.seed + 1)]
+    try:
+        p = subprocess.run(cmd, cwd=fuzzdir, env=env, capture_output=True, text=True, timeout=secs + 1800, errors='replace')
+    except subprocess.TimeoutExpired:
+        chk.inconclusive.append('libFuzzer run did not finish')
+        return
+    log = p.stderr
+    if 'error: could not compile' in log or 'error[' in log:
+        chk.inconclusive.append('fuzz target did not build: ' + log[-300:])
+        return
+    stats = re.findall(r'#(\d+): cov: (\d+) ft: (\d+) corp: (\d+) exec/s: (\d+) oom/timeout/crash: (\d+)/(\d+)/(\d+)', log)
+    if stats:
+        last = stats[-1]
+        chk.count('libfuzzer_executions', int(last[0]))
+        chk.count('libfuzzer_coverage_edges', int(last[1]))
+        chk.count('libfuzzer_corpus', int(last[3]))
+        chk.evaluations += int(last[0])
+    else:
+        chk.inconclusive.append('libFuzzer printed no statistics')
+    for f in sorted(os.listdir(art))[:50]:
+        data = open(os.path.join(art, f), 'rb').read()
+        text = data.decode('utf-8', 'ignore')
+        r = run_input(('fuzz:' + f, text, 'dbg'))
+        kind = f.split('-')[0]
+        if r['problem']:
+            chk.violation(r['problem'] + ' [libfuzzer %s]' % kind, {'input.lay': text}, {'artifact': f})
+        elif kind == 'crash':
+            summ = re.findall(r'SUMMARY: [^\n]*', log)
+            chk.violation('libfuzzer+asan crash in the front end not reproduced by the debug build: %s' % (
+                summ[0][:160] if summ else ''), {'input.lay': text}, {'artifact': f})
+        elif kind == 'timeout':
+            chk.violation('libfuzzer: front end exceeded 10 s on a %d byte input' % len(data), {'input.lay': text}, {'artifact': f})
+
+
 def main():
     tier = sys.argv[sys.argv.index('--tier') + 1] if '--tier' in sys.argv else 'quick'
     chk = vlib.Check(PROP, tier)
@@ -127,6 +185,8 @@ def main():
             text = open(r['path'], encoding='utf-8', errors='replace').read() if os.path.exists(r['path']) else ''
             tag = ' [%s]' % r['name'] if r['name'].startswith('boundary:') else ''
             chk.violation(r['problem'] + tag, {'input.lay': text[:200000]}, {'input': r['name'], 'cfg': r['cfg'], 'bytes': len(text)})
+    if tier == 'thorough':
+        fuzz_stage(chk, seeds)
     chk.distinct = distinct
     chk.extra['mutation_kinds'] = kinds
     chk.rule = ('%d seeded mutants of %d seed programs (all repo fixtures + generated programs): token-level delete/'
